@@ -1481,7 +1481,7 @@ func gen(g *hx.Gen) {
 
 func main() {
 	hx.Main(hx.Prop{
-		Rule:        "case = strictly increasing word list + list of pattern/anagram searchers, Search run twice with the same searcher objects; non-trivial = the Dawg has a shared node (VerifNodeCount < number of distinct prefixes + 1) or some word is a proper prefix of another, and the search returns at least one word; distinct by case text",
+		Rule:        "case = strictly increasing word list + list of pattern/anagram searchers + the way the Dawg object is obtained (New, zero/initialised/reused Builder, GobDecode direct / through encoding/gob / two generations into a fresh value, into a Dawg that held another word list, into the source itself), Search run twice with the same searcher objects, then once on another Dawg; non-trivial = the Dawg has a shared node (VerifNodeCount < number of distinct prefixes + 1) or some word is a proper prefix of another, and the search returns at least one word; distinct by case text",
 		Gen:         gen,
 		Exec:        exec,
 		CaseTimeout: 5 * time.Second,
